@@ -109,6 +109,42 @@ fn adjust_text<T: Clone>(
         .collect()
 }
 
+fn adjust_cstrings(
+    map: &HashMap<String, Vec<usize>>,
+    address: usize,
+    count: usize,
+    subtract: bool,
+) -> HashMap<String, Vec<usize>> {
+    map.iter()
+        .map(|(text, cells)| {
+            let cells = cells
+                .iter()
+                .map(|cell| adjust_pointer(*cell, address, count, subtract))
+                .collect();
+            (text.clone(), cells)
+        })
+        .collect()
+}
+
+fn filter_cstrings(
+    map: &HashMap<String, Vec<usize>>,
+    address: usize,
+    count: usize,
+) -> HashMap<String, Vec<usize>> {
+    let range = address..(address + count);
+    map.iter()
+        .map(|(text, cells)| {
+            let cells: Vec<usize> = cells
+                .iter()
+                .copied()
+                .filter(|cell| !range.contains(cell))
+                .collect();
+            (text.clone(), cells)
+        })
+        .filter(|(_, cells)| !cells.is_empty())
+        .collect()
+}
+
 fn adjust_labels<T: Clone>(
     map: &HashMap<usize, T>,
     address: usize,
@@ -630,9 +666,11 @@ impl BinArchive {
         let new_text = adjust_text(&self.text, address, amount_in_bytes, false);
         let new_labels = adjust_labels(&self.labels, address, amount_in_bytes, false, ge);
         let new_pointers = adjust_pointers(&self.pointers, address, amount_in_bytes, false, ge);
+        let new_cstrings = adjust_cstrings(&self.cstrings, address, amount_in_bytes, false);
         self.text = new_text;
         self.labels = new_labels;
         self.pointers = new_pointers;
+        self.cstrings = new_cstrings;
         Ok(())
     }
 
@@ -649,9 +687,12 @@ impl BinArchive {
         let new_text = adjust_text(&filtered_text, address, amount_in_bytes, true);
         let new_labels = adjust_labels(&filtered_labels, address, amount_in_bytes, true, ge);
         let new_pointers = adjust_pointers(&filtered_pointers, address, amount_in_bytes, true, ge);
+        let filtered_cstrings = filter_cstrings(&self.cstrings, address, amount_in_bytes);
+        let new_cstrings = adjust_cstrings(&filtered_cstrings, address, amount_in_bytes, true);
         self.text = new_text;
         self.labels = new_labels;
         self.pointers = new_pointers;
+        self.cstrings = new_cstrings;
         Ok(())
     }
 
@@ -665,6 +706,10 @@ impl BinArchive {
         self.text.retain(|location, _| *location < address);
         self.labels.retain(|location, _| *location < address);
         self.pointers.retain(|location, _| *location < address);
+        for cells in self.cstrings.values_mut() {
+            cells.retain(|cell| *cell < address);
+        }
+        self.cstrings.retain(|_, cells| !cells.is_empty());
         Ok(())
     }
 
